@@ -18,7 +18,7 @@ import (
 const verifC01KnownFirstProposal = "acked-first-proposal-truncated:base=0"
 
 type verifScriptWeights struct {
-	commit, retry, failover, reinstall, crash, restart, isolate, cut, heal, drop, flush, staleCommit, badInstall, fence, cleanFailover, pageCut, divergentTail int
+	commit, retry, failover, reinstall, crash, restart, isolate, cut, heal, drop, flush, staleCommit, badInstall, fence, cleanFailover, pageCut, divergentTail, doubleFork int
 }
 
 type verifScriptOpts struct {
@@ -118,7 +118,7 @@ func verifRunScript(rt *rapid.T, k *kit.Case, s *verifSim, o verifScriptOpts) ve
 	N, Q := s.cfg.N, s.cfg.Q
 	// whether proposals carry the leader's all-record allocator proof (the
 	// MessageDB store takes a sequenced fast path for them)
-	serverIDs := rapid.Bool().Draw(rt, "serverAllocatedIDs")
+	serverIDs := rapid.IntRange(0, 3).Draw(rt, "serverAllocatedIDs") > 0 == s.cfg.Pebble || rapid.IntRange(0, 3).Draw(rt, "serverAllocatedIDs2") == 0
 	if serverIDs {
 		s.flags["proposals carry server-allocated message ids"] = true
 	}
@@ -157,7 +157,7 @@ func verifRunScript(rt *rapid.T, k *kit.Case, s *verifSim, o verifScriptOpts) ve
 	}
 	actions := []action{{"commit", w.commit}, {"retry", w.retry}, {"failover", w.failover}, {"reinstall", w.reinstall}, {"crash", w.crash},
 		{"restart", w.restart}, {"isolate", w.isolate}, {"cut", w.cut}, {"heal", w.heal}, {"drop", w.drop}, {"flush", w.flush},
-		{"staleCommit", w.staleCommit}, {"badInstall", w.badInstall}, {"fence", w.fence}, {"cleanFailover", w.cleanFailover}, {"pageCut", w.pageCut}, {"divergentTail", w.divergentTail}}
+		{"staleCommit", w.staleCommit}, {"badInstall", w.badInstall}, {"fence", w.fence}, {"cleanFailover", w.cleanFailover}, {"pageCut", w.pageCut}, {"divergentTail", w.divergentTail}, {"doubleFork", w.doubleFork}}
 	var bag []string
 	for _, a := range actions {
 		for i := 0; i < a.w; i++ {
@@ -571,19 +571,39 @@ func verifRunScript(rt *rapid.T, k *kit.Case, s *verifSim, o verifScriptOpts) ve
 			isolated[L] = true
 			lone := &verifSimCommand{channel: c, node: L, proposal: Proposal{Key: verifSimChannelKey(c), Expected: ln.installed[c].ID, CommandID: s.newCommandID(),
 				Records: s.newRecords(c, rapid.IntRange(1, 2).Draw(rt, "tailRecs"), ln.installed[c].ID.ChannelEpoch, []byte("lone"))}}
+			tailLen := len(lone.proposal.Records)
 			s.commands = append(s.commands, lone)
 			if _, err := s.commit(lone); err == nil {
 				st.acks++
 			}
-			target := verifDrawNode(rt, s, "failoverTarget", func(n *verifSimNode) bool { return s.isUp(n.id) && !isolated[n.id] })
+			// variant: the old leader is let back in before the new authority is
+			// installed, so the install sees its forked tail among the responders
+			healFirst := rapid.IntRange(0, 3).Draw(rt, "healBeforeFailover") == 0
+			if healFirst {
+				for _, m := range s.nodes {
+					if m.id != L {
+						s.setCut(L, m.id, false)
+					}
+				}
+				delete(isolated, L)
+				s.flags["forked old leader reachable during the next install"] = true
+			}
+			target := verifDrawNode(rt, s, "failoverTarget", func(n *verifSimNode) bool { return s.isUp(n.id) && !isolated[n.id] && n.id != L })
 			if target == nil {
 				continue
 			}
-			doFailover(c, target, true)
+			doFailover(c, target, rapid.IntRange(0, 2).Draw(rt, "bestTarget") > 0)
 			if inst, ok := target.installed[c]; ok && s.control[c].Leader == target.id {
 				for i := rapid.IntRange(1, 2).Draw(rt, "newLeaderCommits"); i > 0; i-- {
+					// often make the new leader's first proposal exactly as long as
+					// the old leader's lone tail, so that the next proposal's base
+					// equals the rejoining follower's divergent log end
+					nrec := rapid.IntRange(1, 2).Draw(rt, "nrec")
+					if rapid.IntRange(0, 2).Draw(rt, "matchTail") > 0 {
+						nrec = tailLen
+					}
 					cmd := &verifSimCommand{channel: c, node: target.id, proposal: Proposal{Key: verifSimChannelKey(c), Expected: inst.ID, CommandID: s.newCommandID(),
-						Records: s.newRecords(c, rapid.IntRange(1, 2).Draw(rt, "nrec"), inst.ID.ChannelEpoch, []byte("new"))}}
+						Records: s.newRecords(c, nrec, inst.ID.ChannelEpoch, []byte("new"))}}
 					s.commands = append(s.commands, cmd)
 					if _, err := s.commit(cmd); err == nil {
 						st.acks++
@@ -596,7 +616,7 @@ func verifRunScript(rt *rapid.T, k *kit.Case, s *verifSim, o verifScriptOpts) ve
 				}
 			}
 			delete(isolated, L)
-			if rapid.Bool().Draw(rt, "commitAfterRejoin") {
+			if rapid.IntRange(0, 3).Draw(rt, "commitAfterRejoin") > 0 {
 				if inst, ok := target.installed[c]; ok && s.control[c].Leader == target.id {
 					cmd := &verifSimCommand{channel: c, node: target.id, proposal: Proposal{Key: verifSimChannelKey(c), Expected: inst.ID, CommandID: s.newCommandID(),
 						Records: s.newRecords(c, 1, inst.ID.ChannelEpoch, []byte("rejoin"))}}
@@ -610,6 +630,77 @@ func verifRunScript(rt *rapid.T, k *kit.Case, s *verifSim, o verifScriptOpts) ve
 				s.flags["quiesce timed out"] = true
 			}
 			s.flags["old leader rejoined with an unacknowledged minority tail"] = true
+		case "doubleFork":
+			// two successive leaders are deposed, each leaving an unacknowledged tail
+			// forked at a different point; then a lagging third replica takes over
+			// with every voter reachable, so recovery sees both forks at once
+			if N < 3 || s.outSet(isolated) > 0 {
+				continue
+			}
+			L1 := s.control[c].Leader
+			l1 := s.node(L1)
+			if _, ok := l1.installed[c]; !ok || !s.isUp(L1) {
+				continue
+			}
+			if !s.quiesce(time.Second) {
+				s.flags["quiesce timed out"] = true
+			}
+			note("doubleFork ch=%d first=%d", c, L1)
+			loneCommit := func(id ch.NodeID) {
+				n := s.node(id)
+				inst, ok := n.installed[c]
+				if !ok {
+					return
+				}
+				cmd := &verifSimCommand{channel: c, node: id, proposal: Proposal{Key: verifSimChannelKey(c), Expected: inst.ID, CommandID: s.newCommandID(),
+					Records: s.newRecords(c, rapid.IntRange(1, 2).Draw(rt, "forkRecs"), inst.ID.ChannelEpoch, []byte("fork"))}}
+				s.commands = append(s.commands, cmd)
+				if _, err := s.commit(cmd); err == nil {
+					st.acks++
+				}
+			}
+			cutOff := func(id ch.NodeID, dead bool) {
+				for _, m := range s.nodes {
+					if m.id != id {
+						s.setCut(id, m.id, dead)
+					}
+				}
+			}
+			cutOff(L1, true)
+			for i := rapid.IntRange(1, 2).Draw(rt, "fork1Proposals"); i > 0; i-- {
+				loneCommit(L1)
+			}
+			isolated[L1] = true
+			t2 := verifDrawNode(rt, s, "secondLeader", func(n *verifSimNode) bool { return s.isUp(n.id) && n.id != L1 })
+			if t2 == nil {
+				continue
+			}
+			doFailover(c, t2, false)
+			if inst, ok := t2.installed[c]; ok && s.control[c].Leader == t2.id {
+				for i := rapid.IntRange(1, 2).Draw(rt, "sharedProposals"); i > 0; i-- {
+					cmd := &verifSimCommand{channel: c, node: t2.id, proposal: Proposal{Key: verifSimChannelKey(c), Expected: inst.ID, CommandID: s.newCommandID(),
+						Records: s.newRecords(c, rapid.IntRange(1, 2).Draw(rt, "nrec"), inst.ID.ChannelEpoch, []byte("shared"))}}
+					s.commands = append(s.commands, cmd)
+					if _, err := s.commit(cmd); err == nil {
+						st.acks++
+					}
+				}
+			}
+			cutOff(L1, false)
+			delete(isolated, L1)
+			cutOff(t2.id, true)
+			isolated[t2.id] = true
+			for i := rapid.IntRange(1, 2).Draw(rt, "fork2Proposals"); i > 0; i-- {
+				loneCommit(t2.id)
+			}
+			cutOff(t2.id, false)
+			delete(isolated, t2.id)
+			t3 := verifDrawNode(rt, s, "thirdLeader", func(n *verifSimNode) bool { return s.isUp(n.id) && n.id != L1 && n.id != t2.id })
+			if t3 == nil {
+				continue
+			}
+			doFailover(c, t3, false)
+			s.flags["install with two forked ex-leaders among the responders"] = true
 		case "pageCut":
 			// let j recovery pages (Fetch exchanges) through, then lose the next ones:
 			// an Install is interrupted between two atomic page replacements
@@ -682,7 +773,7 @@ func verifRunScript(rt *rapid.T, k *kit.Case, s *verifSim, o verifScriptOpts) ve
 }
 
 func verifC01Weights() verifScriptWeights {
-	return verifScriptWeights{commit: 10, retry: 2, failover: 6, reinstall: 2, crash: 3, restart: 3, isolate: 2, cut: 2, heal: 2, drop: 3, flush: 3, staleCommit: 2, cleanFailover: 4, divergentTail: 2}
+	return verifScriptWeights{commit: 10, retry: 2, failover: 6, reinstall: 2, crash: 3, restart: 3, isolate: 2, cut: 2, heal: 2, drop: 3, flush: 3, staleCommit: 2, cleanFailover: 4, divergentTail: 2, doubleFork: 1}
 }
 
 func verifDrawTopology(rt *rapid.T) (int, int) {
